@@ -16,3 +16,15 @@ package str
 //@ ensures [lock-released] held(randSourceMu) == 0
 //@ at call randSource.Intn assert [the-shared-random-source-is-used-under-its-lock] held(randSourceMu) != 0
 //@ at call randSource.Intn assert [index-into-the-alphabet] arg(a0) == len(letterRunes)
+
+// Any template argument as text: bytes and strings as they are, numbers in decimal, no value as the empty text.
+// No fault for any input (reflection is uninterpreted: the contract pins which formatter sees the value).
+//@ func FormatString
+//@ props C13 C15
+//@ may_panic false
+//@ ensures [bytes-as-text] imp(typeis(iface, []byte), calls(reflect.ValueOf) == 0)
+//@ ensures [no-value-is-empty-text] imp(!typeis(iface, []byte) && calls(v.Kind) == 1 && result_of(v.Kind, 0) == reflect.Invalid, result == "")
+//@ ensures [strings-as-they-are] imp(!typeis(iface, []byte) && result_of(v.Kind, 0) == reflect.String, result == result_of(v.String, 0))
+//@ ensures [signed-integers-in-decimal] imp(!typeis(iface, []byte) && result_of(v.Kind, 0) == reflect.Int64, calls(strconv.FormatInt) == 1 && result == result_of(strconv.FormatInt, 0))
+//@ at call strconv.FormatInt assert [decimal] arg(a1) == 10 && arg(a0) == result_of(v.Int, 0)
+//@ at call strconv.FormatUint assert [decimal] arg(a1) == 10 && arg(a0) == result_of(v.Uint, 0)
